@@ -3,6 +3,7 @@ package dockerlog
 
 import (
 	"context"
+	"slices"
 	"strconv"
 	"strings"
 
@@ -161,8 +162,15 @@ func getLabels(ctr types.Container) containerLabels {
 		"container_state":    ctr.State,
 		"container_status":   ctr.Status,
 	}
-	for label, value := range ctr.Labels {
-		labels[otelstorage.KeyToLabel(label)] = value
+	// Docker labels whose names sanitize to the same LogQL label overwrite each other:
+	// apply them in key order, so that the outcome does not depend on map iteration order.
+	keys := make([]string, 0, len(ctr.Labels))
+	for label := range ctr.Labels {
+		keys = append(keys, label)
+	}
+	slices.Sort(keys)
+	for _, label := range keys {
+		labels[otelstorage.KeyToLabel(label)] = ctr.Labels[label]
 	}
 	return containerLabels{
 		labels: labels,
